@@ -501,6 +501,13 @@ class Terms:
                 return inner[1][1]
             if inner[0] == "const" and fn[2] == "encode" and isinstance(inner[1], str) and not args:
                 return ("const", inner[1].encode())
+        # b"".join((a, b, c)) / "".join([a, b]) of a display is a + b + c
+        if fn[0] == "attr" and fn[2] == "join" and fn[1] in (("const", b""), ("const", "")) and len(args) == 1 and not kwargs \
+                and args[0][0] in ("tuple", "list") and args[0][1] and not any(x[0] == "star" for x in args[0][1]):
+            acc = args[0][1][0]
+            for x in args[0][1][1:]:
+                acc = _binop("Add", acc, x)
+            return acc
         # struct.pack(<constant format>, a..) is Struct(<format>).pack(a..): ONE spelling of a struct packer
         if fn == ("glob", "struct.pack") and args and args[0][0] == "const" and isinstance(args[0][1], str) and not kwargs and not any(a[0] == "star" for a in args):
             fn, args = ("const", StructMethod(StructConst(args[0][1]), "pack")), args[1:]
@@ -865,6 +872,11 @@ def _struct_layout(fmt: str):
         return None
     out, off = [], 0
     for cnt, code in re.findall(r"(\d*)([a-zA-Z?])", fmt[1:]):
+        if code in ("s", "p"):
+            n = int(cnt) if cnt else 1  # ONE field of n bytes
+            out.append((off, n, code))
+            off += n
+            continue
         if code not in _STRUCT_SIZES:
             return None
         for _ in range(int(cnt) if cnt else 1):
@@ -905,6 +917,8 @@ def byte_field(t):
                 start = args[1][1]
             elif len(args) != 1:
                 return None
+        if code in ("s", "p"):
+            return base, start + off, size, "bytes", False  # a run of bytes, not an integer
         return base, start + off, size, (order if size > 1 else "any"), code.islower() and code != "?"
     if t[0] == "call" and t[1] in (("glob", "int.from_bytes"), ("attr", ("glob", "int"), "from_bytes")) and t[2]:
         kw = dict(t[3])
